@@ -17,11 +17,16 @@
 (*                             iterator h (the same real iterator is reused)  *)
 (*  it{h, o, k, f, res}        one positioning call and what it returned      *)
 (*  fit{h, o, k, res}          same for a keyspan.FragmentIterator            *)
-(*  copyspan{a, b, out}        CopySpan(table, [a, b)) and the entries read   *)
-(*                             back from its output                           *)
+(*  copyspan{a, b, warm, out}  CopySpan(table, [a, b)) and the entries read   *)
+(*                             back from its output; warm: the keys whose     *)
+(*                             blocks were in the block cache (the output may *)
+(*                             not depend on it: the field is not consulted)  *)
 (*  corrupt{off, pat, open, res}  the table bytes were altered at off; the    *)
 (*                             whole script since table{} was re-run; res[i]  *)
-(*                             is step i's result, <<-1>> for an error        *)
+(*                             is step i's result, <<-1>> for an error.  The  *)
+(*                             scripts keep using an iterator after it has    *)
+(*                             reported an error (BlockRetry.tla): the steps  *)
+(*                             after an error are held to the same rule       *)
 EXTENDS InternalIter, Json
 
 CONSTANTS KeepExp    \* TRUE: remember every step's outcome set for corrupt{} events
@@ -119,7 +124,10 @@ CopySpan == /\ Is("copyspan")
             /\ CopySpanOK(L, Ev.out, Ev.a, Ev.b)
             /\ UNCHANGED <<L, FD, FK, vp, hs, exp>>
 
-(* C27: after Corrupt(off, pat) every step returns the model's result or an error *)
+(* C27: after Corrupt(off, pat) every step returns the model's result or an error; this   *)
+(* includes every step made on an iterator after one of its earlier steps returned an     *)
+(* error (same call retried, relative step, re-bound and sought again): exp[i] is what    *)
+(* the step returns on the unaltered table, whatever happened before it                   *)
 Err == <<-1>>
 Corrupt == /\ Is("corrupt")
            /\ \/ Ev.open # "ok"
